@@ -289,6 +289,12 @@ def params(fn):
     return names
 
 
+def all_params(fn):
+    """Positional and keyword-only parameter names in declaration order."""
+    a = fn.args
+    return [x.arg for x in a.posonlyargs + a.args + a.kwonlyargs]
+
+
 def param_defaults(fn):
     """{param: default expr} for positional-or-keyword and keyword-only parameters with defaults."""
     a = fn.args
